@@ -4,7 +4,7 @@
 # one of seeded_eval.sh, which applies each change to /repo itself.
 n=${1:-4}; shift
 dirs=("$@"); [ ${#dirs[@]} -eq 0 ] && dirs=(/verif/seeded/C*-*)
-mkdir -p /tmp/mut /root/scratch/par
+mkdir -p /tmp/mut /root/scratch/par; rm -f /root/scratch/par/res*.txt
 head=$(git -C /repo rev-parse HEAD)
 work() {
   w=$1; shift
